@@ -706,7 +706,26 @@ impl Prop for C14Prop {
     }
     fn run_impl(&self, req: &str, _model: &str) -> String {
         let r = parse_req(req);
-        let tt = TempTree::new(&r.tree);
+        // Two-phase materialisation (every second case): an EARLIER VERSION of the tree, in which
+        // the files that include nothing have other contents, is written and parsed first; then
+        // only those files are rewritten (every other file keeps its bytes, size and modification
+        // time) and the tree is parsed again. Whatever the implementation remembers from the first
+        // parse (a cache of flattened files, …) must not show in the second.
+        let two_phase = r.op != "incrun" && crate::hash_str(req) % 2 == 0;
+        let tt = if two_phase {
+            let leaf = |text: &str| !text.lines().any(|l| l.trim_start().starts_with(INCLUDE));
+            let earlier: Tree = r.tree.iter().map(|(p, x)| if leaf(x) && *p != r.root { (p.clone(), format!("earlier_version = c0 1\n{}", x)) } else { (p.clone(), x.clone()) }).collect();
+            let tt = TempTree::new(&earlier);
+            let _ = duckscript::parser::parse_file(&tt.real(&r.root));
+            for (p, x) in &r.tree {
+                if leaf(x) && *p != r.root {
+                    std::fs::write(tt.real(p), tt.real_text(x)).expect("rewrite leaf");
+                }
+            }
+            tt
+        } else {
+            TempTree::new(&r.tree)
+        };
         let real_root = tt.real(&r.root);
         if r.op == "incrun" {
             let out = run_scripted("", Some(&real_root), &r.names, &r.queue.join(","), None, &r.vars);
